@@ -168,13 +168,18 @@ async fn read_http_header(stream: &mut TcpStream) -> Result<(Vec<u8>, Vec<u8>)> 
             ));
         }
         buf.extend_from_slice(&tmp[..n]);
-        if buf.len() > MAX_HEADER_SIZE {
-            return Err(AnyTlsError::Protocol("HTTP header too large".to_string()));
-        }
-        if let Some(end) = find_header_end(&buf) {
-            let header = buf[..end].to_vec();
-            let remaining = buf[end..].to_vec();
-            return Ok((header, remaining));
+        // The limit applies to the header block; body bytes delivered by the same read do not count.
+        match find_header_end(&buf) {
+            Some(end) if end <= MAX_HEADER_SIZE => {
+                let header = buf[..end].to_vec();
+                let remaining = buf[end..].to_vec();
+                return Ok((header, remaining));
+            }
+            Some(_) => return Err(AnyTlsError::Protocol("HTTP header too large".to_string())),
+            None if buf.len() > MAX_HEADER_SIZE => {
+                return Err(AnyTlsError::Protocol("HTTP header too large".to_string()));
+            }
+            None => {}
         }
     }
 }
